@@ -373,6 +373,53 @@ theorem emitted_within (axis vq E t r : Nat) (cmds : List Cmd) (hs : emitSpec ax
     rw [emitted_operands]
     exact spec_within E t r l hx ht
 
+/-! ### Sequences of rotation calls
+
+`q.rot_A(...)` called several times appends, call after call, the commands of each call and nothing else: the
+emitted steps of a SEQUENCE of calls are the CONCATENATION of the per-call steps (this is the model property the
+`angle.sequence` stream ties to the real builder; a peephole that merged or rewrote neighbouring rotations would
+break it), hence the total rotation of a same-axis run is the sum of the per-call totals. -/
+
+theorem rotOperands_append (axis : Nat) (a b : List Cmd) :
+    rotOperands axis (a ++ b) = rotOperands axis a ++ rotOperands axis b := by
+  unfold rotOperands; rw [List.filterMap_append]
+
+theorem sumVal_append (a b : List (Nat × Nat)) : (sumVal (a ++ b) : K) = sumVal a + sumVal b := by
+  unfold sumVal; rw [List.map_append, List.sum_append]
+
+/-- `emitted_seq_operands`: the rotation instructions emitted for a sequence of calls about one axis carry exactly
+the concatenation of the per-call step lists, in order -/
+theorem emitted_seq_operands (axis vq : Nat) (calls : List (List (Nat × Nat))) :
+    rotOperands axis (calls.flatMap (emitRot axis vq)) = calls.flatten := by
+  induction calls with
+  | nil => rfl
+  | cons c cs ih =>
+    rw [List.flatMap_cons, rotOperands_append, emitted_operands, ih, List.flatten_cons]
+
+/-- `emitted_seq_within`: a run of calls `(E, t, r)` (exact loop inputs of each float angle) about one axis: the
+total of all emitted steps under-approximates the SUM of the requested remainders by at most the SUM of the
+tolerances, and every emitted step fits the 8-bit fields. -/
+theorem emitted_seq_within (axis vq : Nat) (calls : List ((Nat × Nat × Nat) × List (Nat × Nat)))
+    (hs : ∀ c ∈ calls, spec c.1.1 c.1.2.1 c.1.2.2 = some c.2 ∧ 2 ^ c.1.1 ≤ c.1.2.1 * 2 ^ 247) :
+    let emitted := rotOperands axis ((calls.map (·.2)).flatMap (emitRot axis vq))
+    (0 : K) ≤ (calls.map (fun c => (val c.1.1 c.1.2.2 : K))).sum - sumVal emitted ∧
+    (calls.map (fun c => (val c.1.1 c.1.2.2 : K))).sum - sumVal emitted ≤ (calls.map (fun c => (val c.1.1 c.1.2.1 : K))).sum ∧
+    ∀ p ∈ emitted, 1 ≤ p.1 ∧ p.1 ≤ 255 ∧ p.2 ≤ 255 := by
+  simp only [emitted_seq_operands]
+  induction calls with
+  | nil => simp [sumVal]
+  | cons c cs ih =>
+    have hc := hs c List.mem_cons_self
+    have hcs := ih (fun x hx => hs x (List.mem_cons_of_mem _ hx))
+    obtain ⟨h0, h1, h2⟩ := spec_within (K := K) c.1.1 c.1.2.1 c.1.2.2 c.2 hc.1 hc.2
+    obtain ⟨g0, g1, g2⟩ := hcs
+    simp only [List.map_cons, List.sum_cons, List.flatten_cons, sumVal_append]
+    refine ⟨by linarith, by linarith, ?_⟩
+    intro p hp
+    rcases List.mem_append.mp hp with hp | hp
+    · exact h2 p hp
+    · exact g2 p hp
+
 /-! ### Consecutive rotations about one axis compose to one rotation by the sum
 
 A rotation about axis `a` by θ is `cos(θ/2)·1 − sin(θ/2)·J` with `J = i·σ_a`, `J² = −1`; everything
